@@ -95,6 +95,18 @@ def d2(rep, w):
                     if src is None or any(src in q for q in org.get(pl['l'], ())):
                         ok = True
         r.check(ok, '%s parses with str::parse::<f64>' % nm.rsplit('::', 1)[-1], '%s no longer reads numbers with str::parse::<f64> on the whole token/string' % nm, g.loc())
+    # ... and the text is handed to the parser unconditionally: the place where the number is produced (the constant emitted for a literal,
+    # the Value::Number returned by to_num) is dominated by the parse call. A pre-check that refuses some texts before parsing ("does not
+    # start like a numeral", "too many digits") rejects texts the printer produces (inf, NaN) or literals that denote a nearest double.
+    for nm in ("yarel::compiler::Parser::<'a>::number", 'yarel::core::string_to_num'):
+        g = w.require_fn(nm, 'C19')
+        dom = g.dominators()
+        parses = [bi for bi, t in g.calls() if (strip_generics(callee_name(t) or '').endswith('str::parse') or (callee_name(t) or '').endswith('::parse'))
+                  and [g.crate.tstr(a) for a in (t['f'].get('ra') or t['f'].get('a') or [])] == ['f64']]
+        prods = [bi for bi, t in g.calls() if (callee_name(t) or '').endswith('::emit_constant')] + \
+                [bi for bi, b in enumerate(g.blocks) for s_ in b['s'] if s_.get('r', {}).get('rv') == 'agg' and s_['r'].get('adt') == VAL and s_['r'].get('v') == 'Number']
+        r.check(bool(parses) and bool(prods) and all(any(p_ in dom.get(b, ()) for p_ in parses) for b in prods), '%s: the number is produced only behind the parse call' % nm.rsplit('::', 1)[-1],
+                '%s can reach the point where the number is produced (or the failure is decided) without having called parse::<f64>: a check in front of the parser decides for some texts' % nm, g.loc())
     # String.to_num: whatever parse accepts is the result -- the Ok payload reaches Value::Number through combinators that never drop or
     # replace an Ok/Some payload (error mapping only). A filter in between rejects texts the printer itself produces ("inf", "NaN").
     g = w.require_fn('yarel::core::string_to_num', 'C19')
